@@ -41,6 +41,11 @@ class Mat:
     def __getitem__(self, key):
         return 1.0
 
+    @property
+    def CCS(self):
+        """column pointers / row indices: one distinct structure per pattern id"""
+        return np.array([0, 1 + self.pattern, 2 + self.pattern]), np.array([0, self.pattern, 1][:2 + self.pattern]), None
+
 
 def h_suitesparse(seq):
     """seq: tuple of (pattern id, version) per call"""
@@ -57,6 +62,9 @@ def h_suitesparse(seq):
             def _numeric(self, A, F):
                 log.append(('numeric', A.version))
                 if F is None or F.pattern != A.pattern:
+                    # KLU (the default back end) does NOT check this: klu.numeric with a symbolic factor of another pattern
+                    # returns garbage or corrupts memory (observed: SIGSEGV / SIGBUS); UMFPACK raises ValueError
+                    stale.append(A.version)
                     raise ValueError('pattern of the symbolic factor does not match')
                 if sing[A.version]:
                     raise ArithmeticError('singular')
@@ -66,6 +74,7 @@ def h_suitesparse(seq):
                 log.append(('solve', A.version))
                 b[:] = float(1000 + 100 * A.version + 10 * N.version + F.pattern)
         sing = {v: bool(I.boolean(f'matrix_{v}_is_singular')) for v in sorted({it[1] for it in seq})}
+        stale = []
         S = Model()
         out = []
         prev = None
@@ -80,6 +89,7 @@ def h_suitesparse(seq):
             prev = A
             b = kvxopt.matrix([0.0, 0.0])
             del log[:]
+            del stale[:]
             x = S.solve(A, b)
             want = float(1000 + 100 * v + 10 * v + p)
             nan = bool(np.isnan(x).any())
@@ -87,6 +97,7 @@ def h_suitesparse(seq):
                         (nan and bool(np.isnan(x).all())) or bool(np.all(x == want))))
             out.append((f'call {k}: all-NaN <=> the current matrix is singular', nan == sing[v]))
             out.append((f'call {k}: bounded work (no unbounded retry)', len(log) <= 6))
+            out.append((f'call {k}: the numeric factorisation never receives a symbolic factor made for another sparsity pattern', not stale))
             out.append((f'call {k}: a numeric factorisation of the current matrix is attempted on every call',
                         ('numeric', v) in log))
         return out
@@ -252,7 +263,7 @@ def main():
     ck.bound(call_sequences=f'<= {L} calls', patterns='2', versions='<= 3', accumulation='3-bus PF system, symbolic point and statuses')
     ck.stub('klu/umfpack symbolic, numeric, solve -> typestate model (pattern mismatch => ValueError, singular => ArithmeticError)',
             'scipy splu -> object remembering the matrix version', 'fg_update, j_update, linear solve in step/nr_step -> recorders')
-    ck.assume('the C libraries raise ValueError exactly on a stale symbolic factor and ArithmeticError exactly on a singular matrix')
+    ck.assume('the C libraries raise ArithmeticError exactly on a singular matrix; a stale symbolic factor is undefined behaviour in KLU (checked on kvxopt: no exception, garbage or SIGSEGV) and ValueError in UMFPACK -- the wrapper must therefore never pass one')
     ck.out('numerical agreement of KLU/UMFPACK/SuperLU results (C libraries)', 'numba', 'bit-reproducibility across processes',
            'CuPy back-end')
     jobs = []
